@@ -193,7 +193,7 @@ def number(ctx, terminator=never):
         ("^X", "A hexadecimal", r"[0-9a-f]", 16),
         ("^O", "An octal", r"[0-7]", 8),
         ("^B", "A binary", r"[01]", 2),
-        ("^D", "A decimal", r"\d", 10)
+        ("^D", "A decimal", r"[0-9]", 10)
     ):
         if Parser.literal(prefix)(ctx, maybe=True):
             num = Parser.regex(rf"{digit_regex}+(?![$_.])\b", skip_whitespace_before=False)(ctx, report=(
